@@ -1008,4 +1008,76 @@ theorem concat_assoc (a b c : Cols α) : concat (concat a b) c = concat a (conca
   cases a[j]? <;> cases b[j]? <;> cases c[j]? <;> simp
 
 
+
+/-! ### sorting: already sorted keys, idempotence, stability -/
+
+theorem zip_range_pairwise (ks : List Int) (h : ks.Pairwise (· ≤ ·)) :
+    ((List.range ks.length).zip ks).Pairwise (fun a b => decide (a.2 ≤ b.2) = true) := by
+  have : (((List.range ks.length).zip ks).map (·.2)).Pairwise (· ≤ ·) := by
+    rw [List.map_snd_zip (by simp)]; exact h
+  rw [List.pairwise_map] at this
+  exact this.imp (by intro a b hab; simpa using hab)
+
+/-- sorting keys that are already in order moves nothing -/
+theorem argsort_of_sorted (ks : List Int) (h : ks.Pairwise (· ≤ ·)) : argsort ks = List.range ks.length := by
+  unfold argsort
+  rw [List.mergeSort_of_pairwise (zip_range_pairwise ks h), List.map_fst_zip (by simp)]
+
+/-- **`sort_by` is idempotent**: sorting an already sorted table by the same field gives the same table -/
+theorem sortBy_idempotent (key : α → Int) (j : Nat) (cols r : Cols α) (hw : WF cols) (h : sortBy key j cols = some r) :
+    sortBy key j r = some r := by
+  obtain ⟨c', hc', hs⟩ := sortBy_sorted key j cols r h
+  have hwr := sortBy_wf key j cols r hw h
+  unfold sortBy
+  rw [hc']
+  simp only
+  rw [argsort_of_sorted _ hs]
+  have : (c'.map key).length = nrows r := by
+    simp only [List.length_map]
+    exact hwr c' (List.mem_of_getElem? hc')
+  rw [this]
+  exact take_range r hwr
+
+/-- **stability**: two rows whose keys are in order keep their relative order -/
+theorem argsort_stable (ks : List Int) (i j : Nat) (hij : i < j) (hj : j < ks.length) (hle : ks[i]'(by omega) ≤ ks[j]) :
+    List.Sublist [i, j] (argsort ks) := by
+  have hsub : List.Sublist [(i, ks[i]'(by omega)), (j, ks[j])] ((List.range ks.length).zip ks) := by
+    have hz : (List.range ks.length).zip ks = (List.range ks.length).map (fun k => (k, ks.getD k 0)) := by
+      apply List.ext_getElem
+      · simp
+      · intro k h1 h2
+        simp only [List.length_zip, List.length_range, Nat.min_self] at h1
+        simp [List.getD_eq_getElem?_getD, List.getElem?_eq_getElem h1]
+    rw [hz]
+    have : [(i, ks[i]'(by omega)), (j, ks[j])] = [i, j].map (fun k => (k, ks.getD k 0)) := by
+      simp [List.getD_eq_getElem?_getD, List.getElem?_eq_getElem hj, List.getElem?_eq_getElem (by omega : i < ks.length)]
+    rw [this]
+    apply List.Sublist.map
+    -- [i, j] is a sublist of range n
+    have hr : List.range ks.length = List.range i ++ i :: (List.range' (i + 1) (j - i - 1) ++ j :: List.range' (j + 1) (ks.length - j - 1)) := by
+      apply List.ext_getElem
+      · simp; omega
+      · intro k h1 h2
+        simp only [List.length_range] at h1
+        simp only [List.getElem_range, List.getElem_append, List.length_range, List.getElem_cons, List.length_range',
+          List.getElem_range']
+        split
+        · rfl
+        · split
+          · omega
+          · split
+            · omega
+            · split <;> omega
+    rw [hr]
+    have s1 : List.Sublist [j] (List.range' (i + 1) (j - i - 1) ++ j :: List.range' (j + 1) (ks.length - j - 1)) :=
+      (List.Sublist.cons_cons j (List.nil_sublist _)).trans (List.sublist_append_right _ _)
+    exact (List.Sublist.cons_cons i s1).trans (List.sublist_append_right _ _)
+  have := List.pair_sublist_mergeSort (le := fun (a b : Nat × Int) => decide (a.2 ≤ b.2))
+    (fun a b c hab hbc => by simp only [decide_eq_true_eq] at *; omega)
+    (fun a b => by simp only [Bool.or_eq_true, decide_eq_true_eq]; omega)
+    (by simpa using hle) hsub
+  have h2 := this.map (·.1)
+  simpa [argsort] using h2
+
+
 end C19
